@@ -407,6 +407,12 @@ func (ss *sess) move(c *cfg, id string, p pos, class string) bool {
 			continue
 		}
 		l, v, why := f.stream.Await(func(m notif.Msg) bool { return m.ID() == mid }, opts)
+		if v == notif.Lost {
+			// no time bound in the statement: wait one more watchdog period before concluding
+			more, v2, why2 := f.stream.Await(func(m notif.Msg) bool { return m.ID() == mid }, opts)
+			l, v, why = append(l, more...), v2, why2
+			ss.ctx.Count("marker_second_wait", 1)
+		}
 		if v != notif.Arrived {
 			ss.markerTrouble(kindName[f.kind], v, why)
 			return false
